@@ -3,48 +3,65 @@
 
    Anchors:  EnsembleEvaluator.__init__   rng = default_rng(config.gradient.seed); every sampler of the
                                           run gets that generator               (seed_of_config, Local)
+             _init_samplers / SciPySampler.__init__   plug-in lookup in the (cached) registry, engine
+                                          construction (scrambling draws from the run's generator)  (init)
              SciPySampler.generate_samples  draws with random_state=rng / seed=rng            (sampler)
              _perturb_variables            request = point + magnitudes * samples            (request)
              EnsembleOptimizer / SciPy     deterministic strategy on the history so far       (decide)
              everything else in the process (other runs, user code inside the evaluator, other
-             libraries) may do anything to NumPy's legacy global generator at any time      (foreign)
+             libraries) may do anything to the process-wide generators at any time         (foreign)
 
-   The machine makes the read/write set of sampling explicit: a sampler is a PROGRAM over two
-   generators, the run-local one and the process-global one; executing it counts the instructions
-   that touch the global one.  The run-time monitor of the harness counts the same thing on the real
-   code (must be 0), which is the premise of the non-interference theorem. *)
+   The machine makes the read/write set of a run explicit.  What persists in the process between and
+   during runs is split in two:
+     G  generator-like state: NumPy's legacy global generator, the random_state of the scipy.stats
+        distribution objects.  Reading it advances it, so every access is a write; other code may do
+        anything to it at any time (foreign operations).
+     T  table-like state: module-level containers and defaults of the plug-in modules, class attributes
+        of samplers / plug-ins, attributes of the plug-in instances cached by the plug-in manager, the
+        configuration object handed to the run.  A run may READ it freely (it is its program text and
+        its registry); WRITING it is what makes one run visible to the next.
+   The start-up of a run and its samplers are PROGRAMS over the run-local generator, G and T; executing
+   them counts the instructions that touch G or write T.  The run-time monitor of the harness counts
+   the same things on the real code (must be 0), which is the premise of the theorems. *)
 From Coq Require Import List ZArith Bool Arith.
 Import ListNotations.
 
 Section Machine.
-  Variables G L V : Type.            (* global generator state; run-local generator state; drawn value *)
-  Variable drawG : G -> G * V.       (* one draw from np.random / mtrand._rand *)
+  Variables G T L V : Type.          (* generator-like / table-like persistent state; run-local generator; drawn value *)
+  Variable drawG : G -> G * V.       (* one draw from np.random / mtrand._rand / a distribution's random_state *)
   Variable drawL : L -> L * V.       (* one draw from the Generator created for this run *)
 
-  (* what generate_samples() may do *)
+  (* what EnsembleEvaluator.__init__ and generate_samples() may do *)
   Inductive prog (A : Type) : Type :=
   | Ret (a : A)
   | Local (k : V -> prog A)          (* rng.<dist>(...) on the generator handed to the sampler *)
   | Global (k : V -> prog A)         (* np.random.<dist>(...), check_random_state(None).<dist>(...) *)
-  | Reseed (s : G) (p : prog A).     (* np.random.seed(...) *)
+  | Reseed (s : G) (p : prog A)      (* np.random.seed(...), dist.random_state = ... *)
+  | Read (k : T -> prog A)           (* look at module tables, class attributes, cached plug-ins, the config object *)
+  | Write (f : T -> T) (p : prog A). (* modify any of them *)
   Arguments Ret {A} a.
   Arguments Local {A} k.
   Arguments Global {A} k.
   Arguments Reseed {A} s p.
+  Arguments Read {A} k.
+  Arguments Write {A} f p.
 
-  (* result: global state, local state, value, number of touches of the global generator *)
-  Fixpoint exec {A} (p : prog A) (g : G) (l : L) : G * L * A * nat :=
+  (* result: persistent states, local state, value, number of touches (accesses of G, writes of T) *)
+  Fixpoint exec {A} (p : prog A) (g : G) (t : T) (l : L) : G * T * L * A * nat :=
     match p with
-    | Ret a => (g, l, a, O)
-    | Local k => let (l', v) := drawL l in exec (k v) g l'
+    | Ret a => (g, t, l, a, O)
+    | Local k => let (l', v) := drawL l in exec (k v) g t l'
     | Global k => let (g', v) := drawG g in
-                  let '(g'', l', a, t) := exec (k v) g' l in (g'', l', a, S t)
-    | Reseed s p' => let '(g'', l', a, t) := exec p' s l in (g'', l', a, S t)
+                  let '(g'', t', l', a, n) := exec (k v) g' t l in (g'', t', l', a, S n)
+    | Reseed s p' => let '(g'', t', l', a, n) := exec p' s t l in (g'', t', l', a, S n)
+    | Read k => exec (k t) g t l
+    | Write f p' => let '(g'', t', l', a, n) := exec p' g (f t) l in (g'', t', l', a, S n)
     end.
 
   Variables Cfg X Req Res Smp : Type.
   Variable seed_of_config : Cfg -> L.                         (* default_rng(config.gradient.seed) *)
-  Variable sampler : Cfg -> prog Smp.                         (* the configured samplers, in configured order *)
+  Variable init : Cfg -> prog unit.                           (* plug-in lookup, sampler / engine construction *)
+  Variable sampler : Cfg -> prog Smp.                         (* the configured samplers, in calling order *)
   Variable request : Cfg -> X -> option Smp -> Req.           (* evaluator request for a point (and perturbations) *)
   Variable evaluator : Req -> Res.                            (* the user's deterministic evaluator *)
   Variable decide : Cfg -> list (Req * Res) -> option (bool * X).   (* None: stop; Some (perturb?, point) *)
@@ -62,59 +79,71 @@ Section Machine.
     o_trace : list (Req * Res);     (* evaluator requests and results, in order *)
     o_exit : Z;
     o_complete : bool;              (* false: the step budget of the model ran out *)
-    o_touches : nat;                (* touches of the global generator by the run itself *)
-    o_global : G                    (* what the run leaves behind for the rest of the process *)
+    o_touches : nat;                (* touches of G / writes of T by the run itself *)
+    o_global : G;                   (* what the run leaves behind for the rest of the process *)
+    o_table : T
   }.
 
-  Fixpoint run_from (fuel : nat) (cfg : Cfg) (s : schedule) (g : G) (l : L)
+  Fixpoint run_from (fuel : nat) (cfg : Cfg) (s : schedule) (g : G) (t : T) (l : L)
                     (hist : list (Req * Res)) (touches : nat) : outcome :=
     match decide cfg hist with
     | None => {| o_trace := hist; o_exit := exit_code cfg hist; o_complete := true;
-                 o_touches := touches; o_global := g |}
+                 o_touches := touches; o_global := g; o_table := t |}
     | Some (perturb, x) =>
         match fuel with
         | O => {| o_trace := hist; o_exit := exit_code cfg hist; o_complete := false;
-                  o_touches := touches; o_global := g |}
+                  o_touches := touches; o_global := g; o_table := t |}
         | S n =>
             let (b1, s1) := pop s in
             let g1 := apply_foreign b1 g in
-            let '(g2, l2, smp, t) :=
+            let '(g2, t2, l2, smp, k) :=
               if perturb : bool
-              then let '(g', l', a, t) := exec (sampler cfg) g1 l in (g', l', Some a, t)
-              else (g1, l, None, O) in
+              then let '(g', t', l', a, k) := exec (sampler cfg) g1 t l in (g', t', l', Some a, k)
+              else (g1, t, l, None, O) in
             let (b2, s2) := pop s1 in
             let g3 := apply_foreign b2 g2 in
             let rq := request cfg x smp in
-            run_from n cfg s2 g3 l2 (hist ++ [(rq, evaluator rq)]) (touches + t)
+            run_from n cfg s2 g3 t2 l2 (hist ++ [(rq, evaluator rq)]) (touches + k)
         end
     end.
 
-  (* a run derives its generator from its own configuration; nothing of L enters from outside *)
-  Definition run (fuel : nat) (cfg : Cfg) (s : schedule) (g : G) : outcome :=
-    run_from fuel cfg s g (seed_of_config cfg) [] O.
+  (* a run derives its generator from its own configuration; nothing of L enters from outside.  The
+     start-up program runs first (it may consume from the run's generator: scrambled QMC engines). *)
+  Definition run (fuel : nat) (cfg : Cfg) (s : schedule) (g : G) (t : T) : outcome :=
+    let '(g0, t0, l0, _, k) := exec (init cfg) g t (seed_of_config cfg) in
+    run_from fuel cfg s g0 t0 l0 [] k.
 
-  (* several runs in one process: only the global state is handed from one run to the next *)
-  Fixpoint process (jobs : list (nat * Cfg * schedule)) (g : G) : list outcome :=
+  (* several runs in one process: the persistent state is handed from one run to the next *)
+  Fixpoint process (jobs : list (nat * Cfg * schedule)) (g : G) (t : T) : list outcome :=
     match jobs with
     | [] => []
-    | (fuel, cfg, s) :: t => let o := run fuel cfg s g in o :: process t (o_global o)
+    | (fuel, cfg, s) :: rest => let o := run fuel cfg s g t in o :: process rest (o_global o) (o_table o)
     end.
 
+  (* a complete other run executed at a schedule point of this one (inside the evaluator, in an observer)
+     is, for this run, a foreign operation *)
+  Definition run_as_foreign (fuel : nat) (cfg : Cfg) (s : schedule) (t : T) : foreign :=
+    fun g => o_global (run fuel cfg s g t).
+
   (* the first perturbation sample of a run *)
-  Definition first_sample (cfg : Cfg) (g : G) : Smp :=
-    let '(_, _, a, _) := exec (sampler cfg) g (seed_of_config cfg) in a.
+  Definition first_sample (cfg : Cfg) (g : G) (t : T) : Smp :=
+    let '(g0, t0, l0, _, _) := exec (init cfg) g t (seed_of_config cfg) in
+    let '(_, _, _, a, _) := exec (sampler cfg) g0 t0 l0 in a.
 End Machine.
 
-Arguments Ret {G V A} a.
-Arguments Local {G V A} k.
-Arguments Global {G V A} k.
-Arguments Reseed {G V A} s p.
+Arguments Ret {G T V A} a.
+Arguments Local {G T V A} k.
+Arguments Global {G T V A} k.
+Arguments Reseed {G T V A} s p.
+Arguments Read {G T V A} k.
+Arguments Write {G T V A} f p.
 
 (* ---- the replay instance used by Check/Chk_C16.v -------------------------------------------------
-   Built from a REFERENCE run (fresh interpreter): requests and results are identified by 63-bit
+   Built from a REFERENCE run (fresh interpreter): requests and results are identified by 60-bit
    digests of their byte strings.  The perturbed requests are what the run-local generator yields
    (in order); the strategy replays the reference's sequence of calls; the evaluator is the
-   reference's request -> result table.  Foreign operations act on an integer global state. *)
+   reference's request -> result table.  Foreign operations act on an integer global state; the table
+   state is an integer version number which the replayed run only reads. *)
 Record script := {
   s_calls : list (bool * Z * Z);   (* per evaluator call: perturbed?, request digest, result digest *)
   s_exit : Z
@@ -124,7 +153,8 @@ Definition r_drawG (g : Z) : Z * Z := (Z.succ g, g).
 Definition r_drawL (l : list Z) : list Z * Z := match l with [] => ([], (-1)%Z) | v :: t => (t, v) end.
 Definition r_seed (c : script) : list Z :=
   flat_map (fun e : bool * Z * Z => let '(p, rq, _) := e in if p then [rq] else []) (s_calls c).
-Definition r_sampler (c : script) : prog Z Z Z := Local (fun v => Ret v).
+Definition r_init (c : script) : prog Z Z Z unit := Read (fun _ => Ret tt).
+Definition r_sampler (c : script) : prog Z Z Z Z := Read (fun _ => Local (fun v => Ret v)).
 Definition r_request (c : script) (x : Z) (smp : option Z) : Z := match smp with Some v => v | None => x end.
 Fixpoint r_lookup (tbl : list (bool * Z * Z)) (rq : Z) : Z :=
   match tbl with
@@ -138,6 +168,6 @@ Definition r_decide (c : script) (hist : list (Z * Z)) : option (bool * Z) :=
   end.
 Definition r_exit (c : script) (hist : list (Z * Z)) : Z := s_exit c.
 
-Definition replay (c : script) (s : schedule Z) (g : Z) : outcome Z Z Z :=
-  run Z (list Z) Z r_drawG r_drawL script Z Z Z Z r_seed r_sampler r_request (r_lookup (s_calls c)) r_decide r_exit
-      (S (length (s_calls c))) c s g.
+Definition replay (c : script) (s : schedule Z) (g t : Z) : outcome Z Z Z Z :=
+  run Z Z (list Z) Z r_drawG r_drawL script Z Z Z Z r_seed r_init r_sampler r_request (r_lookup (s_calls c)) r_decide r_exit
+      (S (length (s_calls c))) c s g t.
